@@ -6,6 +6,7 @@ import (
 	"github.com/cloudwego/dynamicgo/proto/generic"
 
 	"verif/engine/core"
+	"verif/ref/poolpoison"
 	"verif/ref/pbref"
 )
 
@@ -178,6 +179,9 @@ func domGroups(tier string) []group {
 									}
 									out, merr = pn.Marshal(&generic.Options{})
 								})
+								if pi == nil && lerr == nil && merr == nil && poolpoison.Aliased(out) {
+									l.add("Marshal|"+trig+"|result-aliases-pooled-buffer", "%s: the %d bytes returned by Marshal change when the pooled buffers are overwritten", where, len(out))
+								}
 								switch {
 								case pi != nil:
 									l.add("Load+Marshal|"+trig+"|panic@"+pi.Site+":"+core.PanicClass(pi.Val), "%s: panic: %s\n%s", where, pi.Val, pi.Stack)
